@@ -12,6 +12,12 @@
 //!   spec .. hvec .. hist=<ops of point 0>/<ops of point 1>/..   private histories before the vector is assembled
 //!   panic <id> <step> <what>         a call panicked; the history stops
 //!   cost <box|point|vec> <d bits> <0|1> <out bits>
+//!   mpspec <cfg>/<cfg>/..      one PROCESS-level sequence of tracker configurations for make_prediction:
+//!        cfg = <attrs|sort|sortm|vsort>:<wp bits>:<wv bits>:<obs>|<obs>|..   obs = xc,yc,angle,aspect,height bits
+//!   mp <cfg index> <kind> wp=<bits> wv=<bits> frame=<i> obs=<pt> got=<pt|X:reason> ref=<pt>
+//!        got = the box returned by make_prediction / SortTrack::predicted_bbox, ref = initiate/predict/update of a
+//!        Universal2DBoxKalmanFilter::new(wp, wv) built with THAT configuration's weights
+//! Sub-commands (mkpred --seed S --n N: N configurations in ONE process, replay also takes mpspec lines):
 //! Sub-commands: gen --seed S --n N ; replay --file F (spec lines, `costq <d bits>` lines) ; costs --seed S --n N
 use nalgebra::Point2;
 use similari::utils::bbox::Universal2DBox;
@@ -19,6 +25,10 @@ use similari::utils::kalman::kalman_2d_box::Universal2DBoxKalmanFilter;
 use similari::utils::kalman::kalman_2d_point::Point2DKalmanFilter;
 use similari::utils::kalman::kalman_2d_point_vec::Vec2DKalmanFilter;
 use similari::utils::kalman::{CHI2INV95, CHI2_UPPER_BOUND};
+use similari::prelude::{PositionalMetricType, Sort, VisualSort, VisualSortObservation, VisualSortOptions};
+use similari::trackers::kalman_prediction::TrackAttributesKalmanPrediction;
+use similari::utils::kalman::kalman_2d_box::DIM_2D_BOX_X2;
+use similari::utils::kalman::KalmanState;
 use similari_verif_harness::*;
 use std::io::Write;
 
@@ -530,6 +540,188 @@ fn gen_hvec(rng: &mut Rng, id: usize) -> Spec {
     Spec { id, ty: "hvec".into(), kind: "heterogeneous".into(), wp, wv, rot: false, z0, ops, hist }
 }
 
+// ------------------------------------------------------------------------------------------------
+// make_prediction (trackers/kalman_prediction.rs): several trackers with DIFFERENT weights in one process
+
+struct Attrs {
+    state: Option<KalmanState<{ DIM_2D_BOX_X2 }>>,
+    position_weight: f32,
+    velocity_weight: f32,
+}
+
+impl TrackAttributesKalmanPrediction for Attrs {
+    fn get_state(&self) -> Option<KalmanState<{ DIM_2D_BOX_X2 }>> {
+        self.state
+    }
+    fn set_state(&mut self, state: KalmanState<{ DIM_2D_BOX_X2 }>) {
+        self.state = Some(state);
+    }
+    fn get_position_weight(&self) -> f32 {
+        self.position_weight
+    }
+    fn get_velocity_weight(&self) -> f32 {
+        self.velocity_weight
+    }
+}
+
+#[derive(Clone)]
+struct MpCfg {
+    kind: String,
+    wp: f32,
+    wv: f32,
+    obs: Vec<Vec<f32>>,
+}
+
+fn mp_box(z: &[f32]) -> Universal2DBox {
+    Universal2DBox::new(z[0], z[1], if z[2] != 0.0 { Some(z[2]) } else { None }, z[3], z[4])
+}
+
+fn box_vec(b: &Universal2DBox) -> Vec<f32> {
+    vec![b.xc, b.yc, b.angle.unwrap_or(0.0), b.aspect, b.height]
+}
+
+fn mpspec_line(cfgs: &[MpCfg]) -> String {
+    let parts: Vec<String> = cfgs
+        .iter()
+        .map(|c| format!("{}:{}:{}:{}", c.kind, f32b(c.wp), f32b(c.wv), pts(&c.obs)))
+        .collect();
+    format!("mpspec {}", parts.join("/"))
+}
+
+fn parse_mpspec(line: &str) -> Option<Vec<MpCfg>> {
+    let r = line.strip_prefix("mpspec ")?;
+    let mut v = vec![];
+    for c in r.trim().split('/') {
+        let f: Vec<&str> = c.split(':').collect();
+        if f.len() != 4 {
+            return None;
+        }
+        v.push(MpCfg {
+            kind: f[0].to_string(),
+            wp: f32::from_bits(f[1].parse().ok()?),
+            wv: f32::from_bits(f[2].parse().ok()?),
+            obs: f[3].split('|').map(parse_pt).collect(),
+        });
+    }
+    Some(v)
+}
+
+fn one_track(ts: Vec<similari::prelude::SortTrack>, frame: usize) -> Result<Universal2DBox, String> {
+    if ts.len() != 1 {
+        return Err(format!("tracks={}", ts.len()));
+    }
+    if ts[0].length != frame + 1 {
+        return Err(format!("length={}", ts[0].length));
+    }
+    Ok(ts[0].predicted_bbox.clone())
+}
+
+fn run_mp(cfgs: &[MpCfg], out: &mut impl Write) {
+    writeln!(out, "{}", mpspec_line(cfgs)).unwrap();
+    for (ci, c) in cfgs.iter().enumerate() {
+        // the reference: the box filter built with THIS configuration's weights
+        let f = Universal2DBoxKalmanFilter::new(c.wp, c.wv);
+        let mut rstate = f.initiate(&mp_box(&c.obs[0]));
+        let mut attrs = Attrs { state: None, position_weight: c.wp, velocity_weight: c.wv };
+        let mut sort = match c.kind.as_str() {
+            "sort" => Some(Sort::new(1, 1, 5, PositionalMetricType::IoU(0.3), 0.0, None, c.wp, c.wv)),
+            "sortm" => Some(Sort::new(1, 1, 5, PositionalMetricType::Mahalanobis, 0.0, None, c.wp, c.wv)),
+            _ => None,
+        };
+        let mut vsort = if c.kind == "vsort" {
+            let opts = VisualSortOptions::default()
+                .max_idle_epochs(5)
+                .positional_metric(PositionalMetricType::IoU(0.3))
+                .kalman_position_weight(c.wp)
+                .kalman_velocity_weight(c.wv);
+            Some(VisualSort::new(1, &opts))
+        } else {
+            None
+        };
+        for (i, z) in c.obs.iter().enumerate() {
+            let b = mp_box(z);
+            rstate = f.predict(&rstate);
+            rstate = f.update(&rstate, &b);
+            let reference = Universal2DBox::try_from(rstate).unwrap();
+            let got: Result<Universal2DBox, String> = match c.kind.as_str() {
+                "attrs" => guarded(|| attrs.make_prediction(&b)).ok_or_else(|| "panic".to_string()),
+                "sort" | "sortm" => {
+                    let s = sort.as_mut().unwrap();
+                    match guarded(|| s.predict(&[(b.clone(), None)])) {
+                        Some(ts) => one_track(ts, i),
+                        None => Err("panic".into()),
+                    }
+                }
+                "vsort" => {
+                    let s = vsort.as_mut().unwrap();
+                    match guarded(|| s.predict(&[VisualSortObservation::new(None, None, b.clone(), None)])) {
+                        Some(ts) => one_track(ts, i),
+                        None => Err("panic".into()),
+                    }
+                }
+                _ => Err("kind".into()),
+            };
+            writeln!(
+                out,
+                "mp {} {} wp={} wv={} frame={} obs={} got={} ref={}",
+                ci,
+                c.kind,
+                f32b(c.wp),
+                f32b(c.wv),
+                i,
+                bits(z),
+                match &got {
+                    Ok(g) => bits(&box_vec(g)),
+                    Err(e) => format!("X:{}", e),
+                },
+                bits(&box_vec(&reference))
+            )
+            .unwrap();
+        }
+    }
+}
+
+/// a moving, growing box observed for 3..=10 frames
+fn gen_mp_obs(rng: &mut Rng, rotated: bool) -> Vec<Vec<f32>> {
+    let frames = 3 + rng.below(8) as usize;
+    let mut h = 40.0 + rng.unit_f64() * 400.0;
+    let (mut x, mut y) = (100.0 + rng.unit_f64() * 5000.0, 100.0 + rng.unit_f64() * 5000.0);
+    let sp = h * (0.01 + rng.unit_f64() * 0.05);
+    let d = rng.unit_f64() * 6.283185307179586;
+    let (mut vx, mut vy) = (sp * d.cos(), sp * d.sin());
+    let grow = 1.002 + rng.unit_f64() * 0.01;
+    let asp = 0.3 + rng.unit_f64() * 1.2;
+    let mut ang = if rotated { 0.2 + rng.unit_f64() * 0.5 } else { 0.0 };
+    let mut v = vec![];
+    for _ in 0..frames {
+        v.push(vec![x as f32, y as f32, ang as f32, asp as f32, h as f32]);
+        vx *= 1.02;
+        vy *= 1.02;
+        x += vx;
+        y += vy;
+        h *= grow;
+        if rotated {
+            ang += 0.01;
+        }
+    }
+    v
+}
+
+fn gen_mp(rng: &mut Rng, n: usize) -> Vec<MpCfg> {
+    // weight pairs: the defaults are NOT always first (position rotates with the seed)
+    let mut ws: Vec<(f32, f32)> = vec![(1.0 / 20.0, 1.0 / 160.0), (0.2, 0.05), (0.1, 1.0 / 160.0), (0.1, 0.1), (1.0 / 40.0, 1.0 / 80.0), (0.125, 1.0 / 320.0)];
+    rng.shuffle(&mut ws);
+    let kinds = ["attrs", "sort", "vsort", "sortm"];
+    let mut v = vec![];
+    for i in 0..n {
+        let kind = kinds[(i + rng.below(4) as usize) % 4];
+        let w = ws[i % ws.len()];
+        let rotated = kind == "attrs" && rng.chance(1, 3);
+        v.push(MpCfg { kind: kind.into(), wp: w.0, wv: w.1, obs: gen_mp_obs(rng, rotated) });
+    }
+    v
+}
+
 fn run_spec(s: &Spec, out: &mut impl Write) {
     writeln!(out, "{}", spec_line(s)).unwrap();
     match s.ty.as_str() {
@@ -892,6 +1084,8 @@ fn main() {
             for line in txt.lines() {
                 if let Some(s) = parse_spec(line) {
                     run_spec(&s, &mut out);
+                } else if let Some(c) = parse_mpspec(line) {
+                    run_mp(&c, &mut out);
                 } else if let Some(r) = line.strip_prefix("costq ") {
                     // one cost probe: `costq <d f32 bits>`
                     if let Ok(b) = r.trim().parse::<u32>() {
@@ -907,8 +1101,12 @@ fn main() {
             }
         }
         "costs" => costs(&mut rng, a.n, &mut out),
+        "mkpred" => {
+            let c = gen_mp(&mut rng, a.n.max(2));
+            run_mp(&c, &mut out);
+        }
         _ => {
-            eprintln!("usage: kalman gen|replay|costs [--seed S] [--n N] [--file F]");
+            eprintln!("usage: kalman gen|replay|costs|mkpred [--seed S] [--n N] [--file F]");
             std::process::exit(2);
         }
     }
